@@ -18,7 +18,7 @@ class StepObs(object):
   __slots__ = ('op', 'recs', 'exc', 'state', 'state_name', 'state_fn_name', 'state_fn_ok',
                'current_state', 'spy_rtc', 'spy_full', 'trace', 'ret', 'dispatched', 'live_spy',
                'live_trace', 'queue', 'deferred', 'pred', 'tb', 'trace_text_ok', 'instrumented',
-               'trace_len_before', 'spy_full_before', 'model_q', 'model_d', 'trace_before')
+               'trace_len_before', 'spy_full_before', 'model_q', 'model_d', 'trace_before', 'posted')
 
   def __init__(self, op):
     self.op = op
@@ -47,6 +47,7 @@ class StepObs(object):
     self.model_q = None
     self.model_d = None
     self.trace_before = None
+    self.posted = []
 
 
 class QueueModel(object):
@@ -103,6 +104,7 @@ class ChartRun(object):
     self.fatal = None
     self.dispatch_buf = []
     self.started = False
+    self.created = []        # uids of events created since the last observation
 
   def ref_state_at(self, i):
     for j in range(min(i, len(self.steps)) - 1, -1, -1):
@@ -122,6 +124,7 @@ class ChartRun(object):
       uid = 'e%d' % self.uid
     e = ev.Event(signal=sig, payload=uid)
     self.events[uid] = e
+    self.created.append(uid)
     return e
 
   # ---- side effects executed inside handlers (mirrors RefHSM._fx)
@@ -285,6 +288,7 @@ class ChartRun(object):
       ob.exc = type(e).__name__
       ob.tb = traceback.format_exc()[-1200:]
     self.cur_recs = None
+    ob.posted, self.created = [u for u in self.created if not u.startswith('fx')], []
     self.observe(ob)
     ob.model_q = [u for u, _ in self.qm.q]
     ob.model_d = [u for u, _ in self.qm.d]
